@@ -129,7 +129,7 @@ def run(ctx):
                         ctx.failure('is_true/is_false verdict contradicted by a region', {'how': markers.describe(sess, r), 'path': [dump(list(p)) for p in path]})
         # the operands are "markers parsed from text": what the text denotes is the extracted parser's diagram
         markers.check_parses(ctx, sess, keys, 150 if quick else 400)
-        c02.monitor(ctx, sess, regs)
+        c02.monitor(ctx, sess, list(sess.models.keys()))      # every marker this session produced, the operands built for the pairs included
         sess.close()
     if not ctx.samples:
         ctx.sample('(no disjoint non-trivial pair sampled)')
